@@ -311,7 +311,7 @@ func TestVerifH4(t *testing.T) {
 		})
 	}
 	// real time: something else completes the transaction while a retransmission's socket write is in progress
-	for _, mode := range []string{"response", "close", "response", "close", "first-write-slow", "first-write-slow", "first-write-fails", "first-write-fails", "same-id-twice"} {
+	for _, mode := range []string{"response", "close", "response", "close", "first-write-slow", "first-write-slow", "first-write-fails", "first-write-fails", "same-id-twice", "stuck-write-then-reuse"} {
 		h4WriteRace(vt, mode)
 	}
 }
@@ -339,6 +339,22 @@ func h4WriteRace(vt *vhT, mode string) {
 		mu.Unlock()
 		if mode == "same-id-twice" {
 			return nil // every transmission is lost; nothing answers
+		}
+		if mode == "stuck-write-then-reuse" {
+			// the first write of transaction 1 is stuck for 150 ms and then fails; its answer arrives meanwhile (the id is free
+			// again) and the caller starts transaction 2 with the same message: the late failure of 1 must leave 2 alone
+			if nth == 0 {
+				m := &stun.Message{Raw: append([]byte{}, b...)}
+				if m.Decode() == nil {
+					resp, _ := stun.Build(stun.NewTransactionIDSetter(m.TransactionID), stun.BindingSuccess)
+					go func() { _, _ = c.HandleInbound(resp.Raw, srv.addr) }()
+				}
+				time.Sleep(150 * time.Millisecond)
+
+				return errors.New("simnet: injected write error")
+			}
+
+			return nil // transaction 2's transmissions are lost
 		}
 		if mode == "first-write-fails" {
 			// the request got out and is answered (the read loop's goroutine delivers the answer), yet the transport reports an
@@ -395,6 +411,29 @@ func h4WriteRace(vt *vhT, mode string) {
 		panic(err)
 	}
 	msg, _ := stun.Build(stun.NewTransactionIDSetter(tidOf(7)), stun.BindingRequest)
+	if mode == "stuck-write-then-reuse" {
+		first := make(chan error, 1)
+		go func() { _, err := c.PerformTransaction(msg, srv.addr, false); first <- err }()
+		time.Sleep(60 * time.Millisecond)
+		second := make(chan error, 1)
+		go func() { _, err := c.PerformTransaction(msg, srv.addr, false); second <- err }()
+		for name, ch := range map[string]chan error{"first": first, "second": second} {
+			select {
+			case <-ch:
+			case <-time.After(4 * time.Second):
+				vt.Alarm("txn-completion-race", "mode=%s: the %s transaction never returned (the first one's write failed late, after its answer had freed the id for the second)", mode, name)
+			}
+		}
+		if sz := c.trMap.Size(); sz != 0 {
+			vt.Alarm("txn-completion-race", "mode=%s: %d entries left in the transaction table", mode, sz)
+		}
+		vt.Obs("ok")
+		c.Close()
+		_ = cpc.Close()
+		_ = srv.Close()
+
+		return
+	}
 	if mode == "same-id-twice" {
 		// two overlapping transactions with one id (a caller that reuses its message): whatever happens to the second, the first
 		// still ends - by its timetable (7 transmissions, RTO 20 ms: about 0.8 s) - and the table is empty afterwards
